@@ -146,13 +146,21 @@ def showKV : Option KV → String
 def hex16 (n : Nat) : String :=
   String.ofList ((List.range 16).map (fun i => hexDigit (n / 16 ^ (15 - i) % 16)))
 
-def showFV : FV → String
+def showFB : FB → String
+  | some (k, t) => if k == 0 && t == 1 then "-0" else toString k
+  | none => "nan"
+def showOptFB : Option FB → String
+  | some v => showFB v
+  | none => "N"
+def showSum : Option Int → String
   | some v => toString v
   | none => "nan"
-def showOptFV : Option FV → String
-  | some v => showFV v
-  | none => "N"
-def showStats (s : Stats) : String := s!"{s.count};{showFV s.sum};{showOptFV s.min};{showOptFV s.max}"
+def showStats (s : Stats) : String := s!"{s.count};{showSum s.sum};{showOptFB s.min};{showOptFB s.max}"
+
+/-- which operand the compiled `f64::min`/`f64::max` calls of the pinned build return for operands
+that compare equal (`+0.0`/`-0.0`): the left one, in the fold step and in the reduce step -/
+def tieFold : Bool := true
+def tieReduce : Bool := true
 
 def insertKey (kv : Int × List Int) : List (Int × List Int) → List (Int × List Int)
   | [] => [kv]
@@ -175,9 +183,9 @@ def foldResults (f items : String) : Option (String × String) :=
     if f == "min" then pure (showKV (parMin (shape1 kvs)), showKV (kvs.foldl minF none))
     else pure (showKV (parMax (shape1 kvs)), showKV (kvs.foldl maxF none))
   | "stats" => do
-    let xs : List FV ← if items == "-" then some [] else (items.splitOn ",").mapM (fun t =>
-      if t == "nan" then some none else t.toInt?.map some)
-    pure (showStats (parStats (shape1 xs)), showStats (xs.foldl statsF Stats.init))
+    let xs : List FB ← if items == "-" then some [] else (items.splitOn ",").mapM (fun t =>
+      if t == "nan" then some none else if t == "nz" then some (some (0, 1)) else t.toInt?.map (fun v => some (v, 0)))
+    pure (showStats (parStats tieFold tieReduce (shape1 xs)), showStats (xs.foldl (statsF tieFold) Stats.init))
   | _ => do
     let xs ← dashList items
     match f with
